@@ -1,154 +1,518 @@
-// iosskel — T-gen for C15: extracts the call skeleton of the IOS apply path from
-// go/pkg/ios/device.go (go/ast) and writes it as Lean data (NA/Gen/IosSkel.lean).
+// iosskel — T-gen for C15: the interaction skeleton of the IOS apply path (go/pkg/ios/device.go)
+// in a NORMAL FORM that does not depend on how the code is spelled:
 //
-// Per function an ordered list of tokens:
-//   - every simple statement that contains a call, or assigns needReload / s.reloadActive,
-//     printed by go/printer (comments dropped);  `defer <call>`;  `return`
-//   - structure: `if <cond> {` … `} else {` … `}`, `for {` / `range <expr> {` … `}`,
-//     `func() {` … `}()` for an immediately invoked closure, `<name> := func(<params>) {` … `}`
-// A construct it does not understand is written as `?<kind>` so that the Lean fact fails.
+//   * only INTERACTION steps are kept: calls of `s.Conn.*` (Send, SendCmd, IssueCmd, GetOutput,
+//     WaitShort, TryPrompt, StripStdPrompt, StripEcho, …), calls of impure functions of the package
+//     (those that transitively contain an interaction, an abort, a warning or a watched assignment),
+//     calls of local closures, `errlog.Abort` (ends the path), and assignments to the WATCHED
+//     variables `needReload` and `s.reloadActive`; pure string building (fmt.Sprintf, strings.Cut, `+`),
+//     logging (errlog.Info), sleeping and pure helpers are transparent;
+//   * string arguments are constant-folded (raw/interpreted literals, `"a" + "b"`) and re-quoted; every
+//     other argument (locals, parameters, expressions) is `_` (alpha-renaming);
+//   * control flow is compared as the SET of acyclic paths of interaction steps through the function:
+//     if/else polarity, guard clauses vs. nesting, early returns, temporaries do not matter; a condition
+//     contributes a token only if it reads a watched variable (`?needReload=T/F`, polarity canonical);
+//     `defer X` contributes `defer:X` at the end of every path of its scope that passed the
+//     registration (LIFO), an immediately invoked closure is spliced in with its own defer scope,
+//     `range` is one composite step `range{<paths of the body>}`, `for {}` paths end in `loop`;
+//     a path that ends in errlog.Abort is marked `!`.
+//
+// Output: lean/NA/Gen/IosSkel.lean with `paths : List (String × List String)` (function ↦ sorted,
+// de-duplicated rendered paths).  The Lean side computes the same normal form from the annotated
+// programs of NA/Model/IosSessionProg.lean (`Prog.paths`) and proves the two sets equal.
 package main
 
 import (
-	"bytes"
 	"flag"
 	"fmt"
 	"go/ast"
 	"go/parser"
-	"go/printer"
 	"go/token"
 	"os"
 	"path/filepath"
+	"sort"
 	"strconv"
 	"strings"
 )
 
-var funcs = []string{"ApplyCommands", "cmd", "scheduleReload", "extendReload", "sendReloadCmd",
+var funcs = []string{"ApplyCommands", "cmd", "cmd.check", "scheduleReload", "extendReload", "sendReloadCmd",
 	"cancelReload", "writeMem", "stripReloadBanner", "prepareDevice"}
+
+var watched = map[string]string{"needReload": "needReload", "s.reloadActive": "reloadActive"}
 
 var fset = token.NewFileSet()
 
-func src(n ast.Node) string {
-	var b bytes.Buffer
-	printer.Fprint(&b, fset, n)
-	return strings.Join(strings.Fields(b.String()), " ")
+// ---------------------------------------------------------------- expressions
+
+func exprText(e ast.Expr) string {
+	switch x := e.(type) {
+	case *ast.Ident:
+		return x.Name
+	case *ast.SelectorExpr:
+		return exprText(x.X) + "." + x.Sel.Name
+	case *ast.ParenExpr:
+		return exprText(x.X)
+	}
+	return "?"
 }
 
-func hasCall(n ast.Node) bool {
-	found := false
-	ast.Inspect(n, func(x ast.Node) bool {
-		if _, ok := x.(*ast.FuncLit); ok {
+// constant string value of an expression, if it has one
+func constStr(e ast.Expr) (string, bool) {
+	switch x := e.(type) {
+	case *ast.BasicLit:
+		if x.Kind == token.STRING {
+			v, err := strconv.Unquote(x.Value)
+			return v, err == nil
+		}
+	case *ast.ParenExpr:
+		return constStr(x.X)
+	case *ast.BinaryExpr:
+		if x.Op == token.ADD {
+			a, ok1 := constStr(x.X)
+			b, ok2 := constStr(x.Y)
+			if ok1 && ok2 {
+				return a + b, true
+			}
+		}
+	}
+	return "", false
+}
+
+func argText(e ast.Expr) string {
+	if v, ok := constStr(e); ok {
+		return strconv.Quote(v)
+	}
+	if id, ok := e.(*ast.Ident); ok && (id.Name == "true" || id.Name == "false") {
+		return id.Name
+	}
+	return "_"
+}
+
+// ---------------------------------------------------------------- impurity of package functions
+
+type world struct {
+	decls   map[string]*ast.FuncDecl // functions and methods of the file by name
+	impure  map[string]bool
+	closure map[string]bool // local closures of the function being walked
+	extra   map[string][]string
+	cur     string
+}
+
+func (w *world) isInteractionCall(c *ast.CallExpr) (string, bool, bool) { // token name, interaction?, abort?
+	name := exprText(c.Fun)
+	switch {
+	case strings.HasPrefix(name, "s.Conn."):
+		return strings.TrimPrefix(name, "s.Conn."), true, false
+	case name == "errlog.Abort":
+		return "Abort", true, true
+	case name == "errlog.Warning":
+		return "Warning", true, false
+	case strings.HasPrefix(name, "s.") && !strings.Contains(name[2:], "."):
+		if w.impure[name[2:]] {
+			return name[2:], true, false
+		}
+	case !strings.Contains(name, "."):
+		if w.closure[name] || w.impure[name] {
+			return name, true, false
+		}
+	}
+	return "", false, false
+}
+
+func (w *world) computeImpure() {
+	w.impure = map[string]bool{}
+	for changed := true; changed; {
+		changed = false
+		for n, d := range w.decls {
+			if w.impure[n] || d.Body == nil {
+				continue
+			}
+			imp := false
+			ast.Inspect(d.Body, func(x ast.Node) bool {
+				switch y := x.(type) {
+				case *ast.CallExpr:
+					if _, ok, _ := w.isInteractionCall(y); ok {
+						imp = true
+					}
+				case *ast.AssignStmt:
+					for _, l := range y.Lhs {
+						if _, ok := watched[exprText(l)]; ok {
+							imp = true
+						}
+					}
+				}
+				return !imp
+			})
+			if imp {
+				w.impure[n] = true
+				changed = true
+			}
+		}
+	}
+}
+
+// interaction tokens of an expression in evaluation order (arguments before the call)
+func (w *world) exprToks(e ast.Node) (toks []string, abort bool) {
+	if e == nil {
+		return nil, false
+	}
+	var visit func(n ast.Node)
+	visit = func(n ast.Node) {
+		switch x := n.(type) {
+		case nil:
+			return
+		case *ast.FuncLit:
+			return // handled by the statement walker
+		case *ast.CallExpr:
+			for _, a := range x.Args {
+				visit(a)
+			}
+			visit(x.Fun)
+			if name, ok, ab := w.isInteractionCall(x); ok {
+				var args []string
+				if name == "Abort" || name == "Warning" {
+					// the message text is not part of the skeleton
+				} else {
+					for _, a := range x.Args {
+						args = append(args, argText(a))
+					}
+				}
+				toks = append(toks, name+"("+strings.Join(args, ",")+")")
+				if ab {
+					abort = true
+				}
+			}
+			return
+		}
+		ast.Inspect(n, func(c ast.Node) bool {
+			if c == n || c == nil {
+				return true
+			}
+			visit(c)
 			return false
-		}
-		if _, ok := x.(*ast.CallExpr); ok {
-			found = true
-		}
-		return !found
-	})
-	return found
-}
-
-func assignsFlag(a *ast.AssignStmt) bool {
-	for _, l := range a.Lhs {
-		s := src(l)
-		if s == "needReload" || s == "s.reloadActive" {
-			return true
-		}
+		})
 	}
-	return false
+	visit(e)
+	return
 }
 
-type emitter struct{ toks []string }
+// ---------------------------------------------------------------- paths
 
-func (e *emitter) add(s string) { e.toks = append(e.toks, s) }
+const (
+	stOpen = iota
+	stRet
+	stAbort
+	stLoop
+	stBreak
+	stContinue
+)
 
-func (e *emitter) block(b *ast.BlockStmt) {
-	for _, s := range b.List {
-		e.stmt(s)
+type path struct {
+	toks   []string
+	defers []string
+	status int
+}
+
+func (p path) ext(toks ...string) path {
+	n := path{toks: append(append([]string{}, p.toks...), toks...), defers: append([]string{}, p.defers...), status: p.status}
+	return n
+}
+
+func render(p path) string {
+	s := strings.Join(p.toks, ";")
+	if p.status == stAbort {
+		s += "!"
 	}
+	return s
 }
 
-func (e *emitter) funcLit(prefix string, f *ast.FuncLit, suffix string) {
-	var ps []string
-	for _, p := range f.Type.Params.List {
-		for _, n := range p.Names {
-			ps = append(ps, n.Name)
+func mentionsWatched(e ast.Expr) (string, bool, bool) { // name, found, negated
+	neg := false
+	for {
+		switch x := e.(type) {
+		case *ast.ParenExpr:
+			e = x.X
+			continue
+		case *ast.UnaryExpr:
+			if x.Op == token.NOT {
+				neg = !neg
+				e = x.X
+				continue
+			}
 		}
+		break
 	}
-	e.add(prefix + "func(" + strings.Join(ps, ", ") + ") {")
-	e.block(f.Body)
-	e.add("}" + suffix)
+	if n, ok := watched[exprText(e)]; ok {
+		return n, true, neg
+	}
+	return "", false, false
 }
 
-func (e *emitter) stmt(s ast.Stmt) {
+// endScope: the deferred calls of a scope run at its end, in reverse order, on every path
+func endScope(ps []path, base int) []path {
+	var out []path
+	for _, p := range ps {
+		n := p.ext()
+		for i := len(p.defers) - 1; i >= base; i-- {
+			n.toks = append(n.toks, "defer:"+p.defers[i])
+		}
+		n.defers = n.defers[:base]
+		out = append(out, n)
+	}
+	return out
+}
+
+func (w *world) block(stmts []ast.Stmt, in []path) []path {
+	ps := in
+	for _, s := range stmts {
+		var next []path
+		for _, p := range ps {
+			if p.status != stOpen {
+				next = append(next, p)
+				continue
+			}
+			next = append(next, w.stmt(s, p)...)
+		}
+		ps = next
+	}
+	return ps
+}
+
+func (w *world) simple(n ast.Node, p path) path {
+	toks, ab := w.exprToks(n)
+	q := p.ext(toks...)
+	if ab {
+		q.status = stAbort
+	}
+	return q
+}
+
+func (w *world) stmt(s ast.Stmt, p path) []path {
 	switch s := s.(type) {
 	case *ast.ExprStmt:
 		if c, ok := s.X.(*ast.CallExpr); ok {
-			if f, ok := c.Fun.(*ast.FuncLit); ok && len(c.Args) == 0 {
-				e.funcLit("", f, "()")
-				return
+			if f, ok := c.Fun.(*ast.FuncLit); ok {
+				// immediately invoked closure: own defer scope, `return` ends the closure only
+				base := len(p.defers)
+				inner := endScope(w.block(f.Body.List, []path{p}), base)
+				for i := range inner {
+					if inner[i].status == stRet {
+						inner[i].status = stOpen
+					}
+				}
+				return inner
 			}
 		}
-		if hasCall(s) {
-			e.add(src(s))
-		}
+		return []path{w.simple(s, p)}
 	case *ast.AssignStmt:
 		if len(s.Rhs) == 1 {
 			if f, ok := s.Rhs[0].(*ast.FuncLit); ok {
-				e.funcLit(src(s.Lhs[0])+" "+s.Tok.String()+" ", f, "")
-				return
+				// local closure: a function of its own
+				name := exprText(s.Lhs[0])
+				w.closure[name] = true
+				sub := endScope(w.block(f.Body.List, []path{{}}), 0)
+				w.extra[w.cur+"."+name] = renderAll(sub)
+				return []path{p}
 			}
 		}
-		if hasCall(s) || assignsFlag(s) {
-			e.add(src(s))
+		q := w.simple(s, p)
+		if q.status == stOpen {
+			for i, l := range s.Lhs {
+				if n, ok := watched[exprText(l)]; ok {
+					q = q.ext(n + assignClass(n, l, s, i))
+				}
+			}
 		}
+		return []path{q}
+	case *ast.DeclStmt, *ast.IncDecStmt, *ast.EmptyStmt:
+		return []path{p}
 	case *ast.DeferStmt:
-		e.add("defer " + src(s.Call))
+		toks, _ := w.exprToks(s.Call)
+		q := p.ext()
+		if len(toks) > 0 {
+			q.defers = append(q.defers, strings.Join(toks, ";"))
+		}
+		return []path{q}
 	case *ast.ReturnStmt:
-		e.add(src(s))
-	case *ast.IfStmt:
-		if s.Init != nil {
-			e.stmt(s.Init)
+		q := w.simple(s, p)
+		if q.status == stOpen {
+			q.status = stRet
 		}
-		e.add("if " + src(s.Cond) + " {")
-		e.block(s.Body)
-		switch el := s.Else.(type) {
-		case nil:
-		case *ast.BlockStmt:
-			e.add("} else {")
-			e.block(el)
-		case *ast.IfStmt:
-			e.add("} else {")
-			e.stmt(el)
+		return []path{q}
+	case *ast.BranchStmt:
+		q := p.ext()
+		switch s.Tok {
+		case token.CONTINUE:
+			q.status = stContinue
+		case token.BREAK:
+			q.status = stBreak
 		}
-		e.add("}")
-	case *ast.ForStmt:
-		if s.Init != nil || s.Cond != nil || s.Post != nil {
-			e.add("for " + src(s.Cond) + " {")
-		} else {
-			e.add("for {")
-		}
-		e.block(s.Body)
-		e.add("}")
-	case *ast.RangeStmt:
-		e.add("range " + src(s.X) + " {")
-		e.block(s.Body)
-		e.add("}")
+		return []path{q}
 	case *ast.BlockStmt:
-		e.block(s)
-	case *ast.DeclStmt, *ast.IncDecStmt, *ast.BranchStmt, *ast.EmptyStmt:
-		if _, ok := s.(*ast.BranchStmt); ok {
-			e.add(src(s))
+		return w.block(s.List, []path{p})
+	case *ast.IfStmt:
+		ps := []path{p}
+		if s.Init != nil {
+			ps = w.block([]ast.Stmt{s.Init}, ps)
 		}
-	default:
-		e.add(fmt.Sprintf("?%T", s))
+		var out []path
+		for _, q := range ps {
+			if q.status != stOpen {
+				out = append(out, q)
+				continue
+			}
+			q = w.simple(s.Cond, q)
+			if q.status != stOpen {
+				out = append(out, q)
+				continue
+			}
+			t, e := q, q
+			if n, ok, neg := mentionsWatched(s.Cond); ok {
+				tv, ev := "T", "F"
+				if neg {
+					tv, ev = "F", "T"
+				}
+				t = q.ext("?" + n + "=" + tv)
+				e = q.ext("?" + n + "=" + ev)
+			}
+			out = append(out, w.block(s.Body.List, []path{t})...)
+			switch el := s.Else.(type) {
+			case nil:
+				out = append(out, e)
+			case *ast.BlockStmt:
+				out = append(out, w.block(el.List, []path{e})...)
+			case *ast.IfStmt:
+				out = append(out, w.stmt(el, e)...)
+			}
+		}
+		return out
+	case *ast.ForStmt:
+		body := w.block(s.Body.List, []path{p})
+		var out []path
+		for _, q := range body {
+			switch q.status {
+			case stOpen, stContinue:
+				q = q.ext("loop")
+				q.status = stLoop
+			case stBreak:
+				q.status = stOpen
+			}
+			out = append(out, q)
+		}
+		if s.Cond != nil {
+			out = append(out, p) // the loop may not be entered
+		}
+		return out
+	case *ast.RangeStmt:
+		sub := w.block(s.Body.List, []path{{}})
+		return []path{p.ext("range{" + strings.Join(leanBody(sub), ", ") + "}")}
 	}
+	return []path{p.ext(fmt.Sprintf("?%T", s))}
 }
 
-func leanStr(s string) string {
-	q := strconv.QuoteToASCII(s)
-	// Go \uXXXX / \UXXXXXXXX escapes are not Lean syntax; the skeleton is ASCII in practice
-	return q
+func assignClass(n string, l ast.Expr, s *ast.AssignStmt, i int) string {
+	if len(s.Rhs) == len(s.Lhs) {
+		r := s.Rhs[i]
+		if id, ok := r.(*ast.Ident); ok && (id.Name == "true" || id.Name == "false") {
+			return ":=" + id.Name
+		}
+		// accumulate: the right-hand side reads the variable itself
+		self := false
+		ast.Inspect(r, func(x ast.Node) bool {
+			if e, ok := x.(ast.Expr); ok {
+				if exprText(e) == exprText(l) {
+					self = true
+				}
+			}
+			return !self
+		})
+		if self {
+			return "|=_"
+		}
+	}
+	return ":=_"
+}
+
+// Lean syntax of one atom token
+func leanAtom(t string) string {
+	switch {
+	case strings.HasPrefix(t, "?") && (strings.HasSuffix(t, "=T") || strings.HasSuffix(t, "=F")):
+		b := "false"
+		if strings.HasSuffix(t, "=T") {
+			b = "true"
+		}
+		return ".cond " + strconv.QuoteToASCII(t[1:len(t)-2]) + " " + b
+	case strings.HasPrefix(t, "defer:"):
+		return ".deferred " + strconv.QuoteToASCII(strings.TrimPrefix(t, "defer:"))
+	case strings.HasPrefix(t, "range{"):
+		return ".step \"?nested-range\""
+	}
+	return ".step " + strconv.QuoteToASCII(t)
+}
+
+// the paths of a range body as Lean terms `([atoms], aborted)`
+func leanBody(ps []path) []string {
+	set := map[string]bool{}
+	for _, p := range ps {
+		var as []string
+		for _, t := range p.toks {
+			as = append(as, leanAtom(t))
+		}
+		ab := "false"
+		if p.status == stAbort {
+			ab = "true"
+		}
+		set["(["+strings.Join(as, ", ")+"], "+ab+")"] = true
+	}
+	var l []string
+	for s := range set {
+		l = append(l, s)
+	}
+	sort.Strings(l)
+	return l
+}
+
+// Lean term of one path `([toks], aborted)`
+func leanPath(p path) string {
+	var ts []string
+	for _, t := range p.toks {
+		if strings.HasPrefix(t, "range{") {
+			ts = append(ts, ".range ["+strings.TrimSuffix(strings.TrimPrefix(t, "range{"), "}")+"]")
+		} else {
+			ts = append(ts, ".atom ("+leanAtom(t)+")")
+		}
+	}
+	ab := "false"
+	if p.status == stAbort {
+		ab = "true"
+	}
+	return "([" + strings.Join(ts, ", ") + "], " + ab + ")"
+}
+
+func renderAll(ps []path) []string {
+	set := map[string]bool{}
+	for _, p := range ps {
+		set[leanPath(p)] = true
+	}
+	var l []string
+	for s := range set {
+		l = append(l, s)
+	}
+	sort.Strings(l)
+	return l
+}
+
+func renderAllOld(ps []path) []string {
+	set := map[string]bool{}
+	for _, p := range ps {
+		set[render(p)] = true
+	}
+	var l []string
+	for s := range set {
+		l = append(l, s)
+	}
+	sort.Strings(l)
+	return l
 }
 
 func main() {
@@ -161,29 +525,42 @@ func main() {
 		fmt.Fprintln(os.Stderr, err)
 		os.Exit(1)
 	}
-	found := map[string][]string{}
+	w := &world{decls: map[string]*ast.FuncDecl{}, extra: map[string][]string{}}
 	for _, d := range f.Decls {
-		fd, ok := d.(*ast.FuncDecl)
-		if !ok || fd.Body == nil {
+		if fd, ok := d.(*ast.FuncDecl); ok {
+			w.decls[fd.Name.Name] = fd
+		}
+	}
+	w.closure = map[string]bool{}
+	w.computeImpure()
+	found := map[string][]string{}
+	for name, fd := range w.decls {
+		if fd.Body == nil {
 			continue
 		}
-		e := &emitter{}
-		e.block(fd.Body)
-		found[fd.Name.Name] = e.toks
+		w.cur = name
+		w.closure = map[string]bool{}
+		ps := endScope(w.block(fd.Body.List, []path{{}}), 0)
+		found[name] = renderAll(ps)
+	}
+	for k, v := range w.extra {
+		found[k] = v
 	}
 	var b strings.Builder
-	b.WriteString("/-! GENERATED by translate/iosskel from go/pkg/ios/device.go — do not edit, not committed. -/\n")
-	b.WriteString("namespace NA.Gen.IosSkel\n\n")
-	b.WriteString("def skel : List (String × List String) := [\n")
+	b.WriteString("import NA.Model.IosSkelTypes\n")
+	b.WriteString("/-! GENERATED by translate/iosskel from go/pkg/ios/device.go — do not edit, not committed.\n")
+	b.WriteString("Normal form: sets of acyclic paths of interaction steps (see translate/iosskel/main.go). -/\n")
+	b.WriteString("namespace NA.Gen.IosSkel\nopen NA.Ios\n\n")
+	b.WriteString("def paths : List (String × List SkelPath) := [\n")
 	for i, name := range funcs {
-		toks, ok := found[name]
+		ps, ok := found[name]
 		if !ok {
-			toks = []string{"?missing"}
+			ps = []string{"([.atom (.step \"?missing\")], false)"}
 		}
-		b.WriteString("  (" + leanStr(name) + ", [\n")
-		for j, t := range toks {
-			b.WriteString("    " + leanStr(t))
-			if j+1 < len(toks) {
+		b.WriteString("  (" + strconv.QuoteToASCII(name) + ", [\n")
+		for j, t := range ps {
+			b.WriteString("    " + t)
+			if j+1 < len(ps) {
 				b.WriteString(",")
 			}
 			b.WriteString("\n")
